@@ -503,10 +503,14 @@ theorem index_command_builds_reachable (o : LcaIndex.Opts) (sigs : List Sig) (ro
               · split at hs
                 · cases hs
                 · rename_i lineage _ _ db' n hins
-                  simp only [Except.ok.injEq] at hs; subst hs
-                  refine ⟨[Op.insert sg (LcaIndex.sigIdent o.splitIdents o.keepVersions
-                    (if sg.name ≠ "" then sg.name else sg.filename)) lineage], ?_⟩
-                  simp only [run, stepDb, hins]
+                  by_cases hc : (Gen.idxRemnantsRemoveRaises && !st.remnants.contains (LcaIndex.sigIdent o.splitIdents o.keepVersions
+                      (if sg.name ≠ "" then sg.name else sg.filename))) = true
+                  · rw [if_pos hc] at hs; cases hs
+                  · rw [if_neg hc] at hs
+                    simp only [Except.ok.injEq] at hs; subst hs
+                    refine ⟨[Op.insert sg (LcaIndex.sigIdent o.splitIdents o.keepVersions
+                      (if sg.name ≠ "" then sg.name else sg.filename)) lineage], ?_⟩
+                    simp only [run, stepDb, hins]
         obtain ⟨ops1, h1⟩ := hstep
         obtain ⟨ops2, h2⟩ := ih st1 st' (run st.db log ops1).2 hh
         refine ⟨ops1 ++ ops2, ?_⟩
